@@ -13,11 +13,11 @@ VERIF = os.path.dirname(os.path.dirname(os.path.abspath(__file__)))
 CHECKS = {
     'C01': dict(level='exploration', ref='4/C01',
                 technique='runtime monitoring: differential oracle (hashlib/hmac/pbkdf2, GF(2) polynomial division) over ASan+UBSan-instrumented executions of the real alg/*.c',
-                text='Real alg/*.c objects run under ASan+UBSan on every length 0..600 x 3 update partitions, every HMAC key length 0..200, every PBKDF2 dkLen 1..200, every CRC32C (length 0..80, alignment 0..15), random cases, two >2^32-bit streams per hash (chunked and one single update >= 2^29 bytes), PBKDF2 outputs beyond 255/511 blocks, overlapping arguments (digest / tag / derived key written over the message, the key, the salt or the password, in-place chains) where the unchanged library supports them, and ONE call of 2^32+d bytes (SHA-1, SHA-256, CRC32C in quick; every algorithm in thorough) over address ranges in which one 2 MiB memory file is mapped 2049 times; four builds (as the CPU allows, portable, 32-bit SSE4.2 CRC loop, SSE2 SHA-256); each result is compared with an independent implementation. Sampling, not proof: lengths beyond 64 KiB are covered by the long streams only.',
+                text='Real alg/*.c objects run under ASan+UBSan on every length 0..600 x 3 update partitions, every HMAC key length 0..200, every PBKDF2 dkLen 1..200, every CRC32C (length 0..80, alignment 0..15), random cases, two >2^32-bit streams per hash (chunked and one single update >= 2^29 bytes), PBKDF2 outputs beyond 255/511 blocks, overlapping arguments (digest / tag / derived key written over the message, the key, the salt or the password, in-place chains) where the unchanged library supports them, and ONE call of 2^32+d bytes (SHA-1, SHA-256, CRC32C in quick; every algorithm in thorough) over address ranges in which one 2 MiB memory file is mapped 2049 times; CRC records with an embedded checksum and a call boundary behind it; six builds (as the CPU allows, portable, 32-bit SSE4.2 CRC loop, SSE2 SHA-256, and two with -DNDEBUG); each result is compared with an independent implementation. Sampling, not proof: lengths beyond 64 KiB are covered by the long streams only.',
                 note='Trusts Python hashlib/hmac (OpenSSL) as the specification; gcc 12 ASan/UBSan.'),
     'C02': dict(level='exploration', ref='4/C02',
                 technique='runtime monitoring: differential against an independent byte-oriented FIPS-197 / SP 800-38A reference (harness/common/refaes.c, self-checked on the FIPS vectors, spot-checked with openssl enc) under ASan+UBSan, AES-NI build and OpenSSL-software build; long streams really run across blocks 256 and 65536; far-offset streams are positioned with the LIBCPERCIVA_VERIF hook crypto_aesctr_verif_seek at block 2^e - d (e = 8..56) and cross 2^e with bulk, sub-block and 0-length calls, judged at the absolute block index; in every other case the library\'s key and stream objects are allocated 8 mod 16 (misaligning allocator under the library)',
-                text='Seeded random and planned workload: key/block pairs, CTR streams under 3 partitions each (0-length, sub-block and multi-block calls), crypto_aesctr_buf, in-place, encrypt-twice, init2 re-use with and without a new key, streams of >300 and >70,000 blocks (2^24 in thorough) cut around blocks 255/256/65535/65536 on both the incremental and the bulk path, an exhaustive grid of 317 far-offset streams per build (7 boundaries x 9 start offsets x 5 crossing kinds + one 300..1300-block call per boundary), ONE crypto_aesctr_stream call of 2^32+d bytes followed by short calls, an AES-NI implementation that is wrong for one key size only (the start-up self-test must notice and fall back), and allocation-failure histories in fresh processes (each allocation attempt of six key/stream histories refused once: what is produced must be right, what fails must report failure).',
+                text='Seeded random and planned workload: key/block pairs, CTR streams under 3 partitions each (0-length, sub-block and multi-block calls), crypto_aesctr_buf, in-place, encrypt-twice, init2 re-use with and without a new key, streams of >300 and >70,000 blocks (2^24 in thorough) cut around blocks 255/256/65535/65536 on both the incremental and the bulk path, an exhaustive grid of 317 far-offset streams per build (7 boundaries x 9 start offsets x 5 crossing kinds + one 300..1300-block call per boundary), ONE crypto_aesctr_stream call of 2^32+d bytes followed by short calls, streams that run to the last byte (2^64 - 1) of the byte position, adjacent (not overlapping) input and output, builds with -DBROKEN_MM_LOADU_SI64 and with -march=native, an AES-NI implementation that is wrong for one key size only (the start-up self-test must notice and fall back), and allocation-failure histories in fresh processes (each allocation attempt of six key/stream histories refused once: what is produced must be right, what fails must report failure).',
                 note='Keys, nonces and partitions are sampled. Carries above block 2^16 rely on the seek hook (it sets the byte counter and counter block as after n whole blocks; nothing streams that far except a real 2^24-block stream in thorough). Streams stay below block 2^60 (the library\'s 64-bit byte position); block 2^64 is not defined by the statement. Inconclusive if the AES-NI build does not select AES-NI.'),
     'C03': dict(level='exploration', ref='4/C03',
                 technique='runtime monitoring of build variants: the alg/crypto objects compiled in every subset of {SHANI+SSSE3, SSE2, SSE42 32/64, AESNI}, with run-time detectors substituted to answer "absent", without CPUID (39 builds), plus 10 "self-test fails" variants in which the CPU reports the feature but the library\'s own start-up self-test of the implementation is made to fail once through the --wrap wrapper (49 configurations), plus 4 variants in which the AES-NI implementation is persistently wrong for one key size or round count only; one seeded workload, N-way comparison plus references; --wrap call counters prove which implementation ran and that a disabled implementation is never used afterwards; far-offset AES-CTR streams positioned with the LIBCPERCIVA_VERIF seek hook; in every other case the library\'s key and stream objects are allocated 8 mod 16',
@@ -49,11 +49,11 @@ CHECKS = {
                 note='Header blocks stay below the client\'s 64 KiB limit and chunk-size lines below its 256-byte limit (implementation limits, not part of the claim).'),
     'C10': dict(level='exploration', ref='4/C10',
                 technique='runtime monitoring under ASan+UBSan of the real crypto_dh.c with crypto_entropy_read substituted at link time (blinding chosen by the case); Python big-integer oracle pow(., 2^258+x, p) with p typed in from RFC 3526 and cross-checked against the RFC\'s pi formula',
-                text='Boundary sets for x, y and blinding; constructed peers giving every leading-zero count 1..256; sanity-check neighbours of p at every byte; two-party agreement; entropy failure at every position; every operation also entered with stale entries on OpenSSL\'s error queue; overlapping arguments (peer value, private value and output at chosen offsets inside one block, incl. output == peer value) and sanitycheck -> in-place compute -> sanitycheck sequences; plus seeded random (17k operations quick, 380k thorough).',
+                text='Boundary sets for x, y and blinding; constructed peers giving every leading-zero count 1..256; sanity-check neighbours of p at every byte; two-party agreement; entropy failure at every position; every operation also entered with stale entries on OpenSSL\'s error queue; overlapping arguments (peer value, private value and output at chosen offsets inside one block, incl. output == peer value) and sanitycheck -> in-place compute -> sanitycheck sequences; the last call of every driver process is made from an exit handler registered before the module\'s first use; plus seeded random (17k operations quick, 380k thorough).',
                 note='256-bit and 2048-bit values are sampled. For y >= p the documented interface has no precondition; the model is pow(y, e, p).'),
     'C11': dict(level='fault_enumeration', ref='4/C11',
                 technique='runtime monitoring: byte-for-byte comparison with an SP 800-90A 10.1.2 HMAC_DRBG model (validated on a CAVP vector) fed with the bytes the substituted OS entropy source handed out; one forked child per history; every entropy call failed in turn',
-                text='For each generated history every entropy call (instantiation and each reseed) is failed in turn (1-3 consecutive failures); in the build with the real util/entropy.c every entropy_read gets open failure, EOF, EIO, EINTR, short reads and close errors through interposed open/read/close. Fault-free exploration covers random and reseed-boundary histories with requests of 0..200000 bytes.',
+                text='For each generated history every entropy call (instantiation and each reseed) is failed in turn (1-3 consecutive failures); in the build with the real util/entropy.c every entropy_read gets open failure, EOF, EIO, EINTR, short reads and close errors through interposed open/read/close; every third history makes its last one or two requests from an exit handler registered before the generator\'s first use. Fault-free exploration covers random and reseed-boundary histories with requests of 0..200000 bytes.',
                 note='Histories and entropy contents are sampled. After a failed call any state the call passed through is accepted (the statement does not say which). The RDRAND build is informative only.'),
     'C12': dict(level='exploration', ref='4/C12',
                 technique='runtime monitoring: reference models (byte vector with unknown-mask, FIFO, number table, live set) compared after every operation through the public calls; tracking allocator (--wrap malloc family) supplies capacities, exported block sizes, real allocations behind pool calls, the blocks alive after all atexit handlers, and a one-shot failpoint armed at random operations of the array/typed/queue/map histories (refused allocation => -1/NULL with the container exactly as the model had it, or full effect for shrink/delete which cannot fail); ASan+UBSan',
@@ -81,11 +81,11 @@ CHECKS = {
                 note='Only numeric address strings are resolved. Non-canonical base-64 pad bits and trailing characters beyond 2*len hex digits may go either way.'),
     'C18': dict(level='exploration', ref='4/C18',
                 technique='runtime monitoring under ASan+UBSan: fourteen option tables compiled through the real GETOPT_* macros (incl. compact layouts with labels on the first / last / GETOPT_SWITCH line, fall-through into the default block, a 272-line table, a zero-slot and a one-slot table); the sequence of (label or returned option string, optarg, optind), the final optind and the number of warning lines compared with a Python model written from the getopt.h comment; every parse follows optreset after another, possibly abandoned, parse whose argv was freed; a sample repeated in fresh processes',
-                text='Exhaustive over per-table alphabets of 13-49 tokens for length <= 3 (full) and 4 (reduced) in quick, <= 4 (full) and 5 (reduced) in thorough; random vectors to length 8; vectors with uncounted words at argv[argc] (a longer command line cut at argc), argc == 0, the same vector re-parsed after optreset with a table of another size: 1.8M parses quick, 25M thorough.',
+                text='Exhaustive over per-table alphabets of 13-49 tokens for length <= 3 (full) and 4 (reduced) in quick, <= 4 (full) and 5 (reduced) in thorough; random vectors to length 8; vectors with uncounted words at argv[argc] (a longer command line cut at argc), argc == 0, the same vector re-parsed after optreset (requested with several non-zero values) with a table of another size, one more parse per driver process from an exit handler registered before getopt\'s first use: 1.8M parses quick, 25M thorough.',
                 note='optarg compared only where a program can observe it; warnings are counted, their text is not compared; where the header is silent the model follows standard getopt. A GETOPT_OPT label falling through into a GETOPT_OPTARG label is outside the documented usage and not generated.'),
     'C19': dict(level='exploration', ref='4/C19',
                 technique='runtime monitoring under ASan+UBSan with time() interposed: all four aws_sign_* functions; signature, credential scope, content hash and query string re-derived from the returned timestamp by an independent Python SigV4 that reproduces the published AWS worked examples',
-                text='48k signatures quick, 1.9M thorough over ids/regions/buckets/services/ops/paths of 0..200 unreserved characters, printable-ASCII secrets, bodies absent/empty/1 B..100 KiB, the int expiry range, clock instants 1970..2100; over half the cases use a clock that ticks on every call at a day, leap-day or year boundary. The shards alternate between three builds of SHA-256 (SHA-NI, SSE2 only, portable C).',
+                text='48k signatures quick, 1.9M thorough over ids/regions/buckets/services/ops/paths of 0..200 unreserved characters, printable-ASCII secrets, bodies absent/empty/1 B..100 KiB, the int expiry range, clock instants 1970..2100; over half the cases use a clock that ticks on every call at a day, leap-day or year boundary. The shards alternate between three builds of SHA-256 (SHA-NI, SSE2 only, portable C); histories of consecutive calls with one secret and day whose (region, service) pairs are different splits of one string.',
                 note='Paths are absolute. The timestamp must be an instant the interposed clock returned, in UTC. Acceptance by the live AWS service is out of scope.'),
     'C20': dict(level='exploration', ref='4/C20',
                 technique='runtime monitoring of the real objects in -O2, -O1+ASan/UBSan and (thorough) -O2 -flto builds, in four AES environments (AES-NI; compiled without it; compiled with it but the run-time detector answers absent; compiled with it but its self-test fails): context bytes read back after every *_Final with the context at every legal alignment (heap and stack); direct sweep of insecure_memzero over every length x offset; a free-time hook (under malloc/free via --wrap, with an opt-in allocator mode handing out blocks that are 8 mod 16, and under OpenSSL via CRYPTO_set_mem_functions) searches every released block for independently derived secret images; allocation-fault enumeration of the DH operations (each OpenSSL allocation refused in turn)',
